@@ -20,7 +20,7 @@ ASSUMED = [
     {"what": "HashSet<Ident> / HashSet<String> are shims with ghost set views (contains / insert); Ident::from_name(s) is the one-segment identifier s; "
              "Option<Ident>::clone / Option<String>::clone are the identity; NameGenerator::gen() returns SOME string (nothing about it is assumed here: "
              "its freshness is ids_names.NG1)",
-     "keys": ["struct IdentSet", "struct StrSet", "fn view", "fn contains", "fn insert", "fn ident_from_name", "fn clone_opt_ident", "fn clone_opt_string", "fn clone_string", "fn inferred_name", "Option::<T>::or_else", "struct NameGen", "fn gen"]},
+     "keys": ["struct IdentSet", "struct StrSet", "fn view", "fn contains", "fn insert", "fn ident_from_name", "fn clone_opt_ident", "fn clone_opt_string", "fn clone_string", "fn clone", "fn inferred_name", "Option::<T>::or_else", "struct NameGen", "fn gen"]},
     {"what": "TERMINATION of the two `while` loops is NOT proved (it needs the generator's freshness against a finite set): "
              "#[verifier::exec_allows_no_decreases_clause]", "keys": ["exec_allows_no_decreases_clause"]},
 ]
@@ -38,6 +38,7 @@ use std::result::Result::*;
 verus! {
 """ + common_rq.OPAQUE + r"""
 pub struct Ident { pub path: Vec<String>, pub name: String }
+impl Clone for Ident { #[verifier::external_body] fn clone(&self) -> (r: Self) ensures r == *self, { unimplemented!() } }
 #[verifier::external_body] pub fn ident_from_name(s: String) -> (r: Ident) ensures r.name == s, r.path@.len() == 0, { unimplemented!() }
 #[verifier::external_body] pub fn clone_opt_ident(o: &Option<Ident>) -> (r: Option<Ident>) ensures r == *o, { unimplemented!() }
 #[verifier::external_body] pub fn clone_opt_string(o: &Option<String>) -> (r: Option<String>) ensures r == *o, { unimplemented!() }
@@ -94,6 +95,7 @@ def build(X):
                "        // .. and a name that is present and unused is kept\n"
                "        (old(decl).name is Some && !old(names).view().contains(old(decl).name->0)) ==> final(decl).name == old(decl).name, // @AN3\n"
                "{\n" + body + "\n}\n")
+    an.rewrite_re("slice", r"\bcontinue;", "return;", count=None, why="`continue` of the sliced loop: this declaration is done")
     an.rewrite_re("R5", r"\bIdent::from_name\(", "ident_from_name(", count=None, why="Ident::from_name")
     an.rewrite_re("R5", r"\bdecl\.name\.clone\(\)", "clone_opt_ident(&decl.name)", count=None, why="Option<Ident>::clone")
     if re.search(r"\b(while|loop|for)\b", body):
@@ -145,3 +147,52 @@ def build(X):
         rn.text += "\n// no loop left in the naming code: the loop invariant has nothing to attach to // @RN4\n"
     rn.rewrites.append({"rule": "slice", "what": "statements of fold_rel after `let instance = ..get_mut(riid).unwrap();` up to `Ok(rel)` wrapped as fn name_one_instance(&mut self, instance, rel)"})
     return PRELUDE + an.text + "\n" + rn.text + "\n} // verus!\nfn main() {}\n"
+
+
+# ----------------------------------------------------------------------------- replay on the real compiler
+SETUP = ("create table x(id integer, v integer); insert into x values (1,10),(2,20),(3,30),(4,40);"
+         "create table t(id integer, v integer); insert into t values (1,111),(2,222);"
+         "create table a(id integer, c integer); insert into a values (2,1),(3,1),(4,1),(5,1);")
+CASES = [
+    # a let-table inside a module whose short name is also a database table: the CTE must not capture the table
+    ("module archive { let t = (from x | select {id, v} | sort id | take 3) }\nfrom old = archive.t\njoin t (==id)\nselect {old.id, old_v = old.v, new_v = t.v}\nsort id\n",
+     [(1, 10, 111), (2, 20, 222)]),
+    ("module m1 { let p = (from x | filter id > 2 | select {id}) }\nmodule m2 { let p = (from x | filter id < 2 | select {id}) }\nfrom m1.p\nappend m2.p\nsort id\n", [(1,), (3,), (4,)]),
+    # a self join needs two different aliases
+    ("from x\njoin y = x (==id)\nselect {x.id, y.v}\nsort id\ntake 2\n", [(1, 10), (2, 20)]),
+]
+
+
+def _try(src, exp):
+    import replaylib
+    ok, sql = replaylib.compile_prql(src, "sql.sqlite")
+    if not ok:
+        return {"input": src, "expected": [list(r) for r in exp], "observed": sql[:300], "failing": sql.startswith("PANIC"), "replay_kind": "rows"}
+    ok2, rows = replaylib.sqlite_rows(SETUP, sql)
+    rows = [tuple(r) for r in rows] if ok2 else rows
+    return {"input": src, "expected": [list(r) for r in exp], "observed": [list(r) for r in rows] if ok2 else "sqlite error: %s\n%s" % (rows, sql[:300]), "failing": (not ok2) or rows != exp,
+            "replay_kind": "rows", "sql": sql}
+
+
+def replay(failure):
+    for src, exp in CASES:
+        r = _try(src, exp)
+        if r["failing"]:
+            return r
+    return {"failing": False}
+
+
+def rerun(doc):
+    return _try(doc["input"], [tuple(r) for r in doc["expected"]])
+
+
+SWEEP_DOC = "let-tables in modules whose short names clash with a database table or with each other, a self join: compiled by the real prqlc, run on SQLite against the expected rows"
+
+
+def sweep():
+    out = []
+    for src, exp in CASES:
+        r = _try(src, exp)
+        r["obligation"] = "rel_names.AN1"
+        out.append(r)
+    return out
